@@ -258,6 +258,11 @@ pub fn planted_feasible_n(rng: &mut StdRng, o: &GenOpts, n: usize, min_m: usize)
     if m0 < min_m {
         cones.push(ConeSpec::Nonneg(min_m - m0));
     }
+    planted_with_cones(rng, o, n, cones)
+}
+
+/// as planted_feasible with n and the cone list given
+pub fn planted_with_cones(rng: &mut StdRng, o: &GenOpts, n: usize, cones: Vec<ConeSpec>) -> Problem {
     let m: usize = cones.iter().map(|c| c.numel()).sum();
     let mut a = random_dense(rng, m, n, o);
     let x0: Vec<f64> = (0..n).map(|_| normal(rng)).collect();
